@@ -51,6 +51,9 @@ def c_vs_machine(progs, args, nstates, rng, named=None, fuel=300000, trace=False
     out = {}
     ok = {}
     for pid, v in comp.items():
+        if getattr(progs[pid], 'rename', None):
+            from .gen_c import unrename_result
+            v['v'] = unrename_result(v['v'], progs[pid].rename)
         r = v['v']
         out[pid] = {'status': r['status'], 'err': r.get('err'), 'msg': r.get('msg'), 'loc': r.get('loc'), 'cases': []}
         if r['status'] == 'ok':
